@@ -1,4 +1,5 @@
 import CobaldVerif.Drive.C06
+import CobaldVerif.Drive.C07
 
 namespace Cobald.Drive
 open Lean
@@ -6,6 +7,7 @@ open Lean
 def dispatch (prop : String) (j : Json) : Except String Json :=
   match prop with
   | "C06" => C06.handle j
+  | "C07" => C07.handle j
   | p => throw s!"unknown property {p}"
 
 /-- one request line `<prop> <json>` → one canonical JSON line -/
